@@ -51,10 +51,13 @@ CLAIMED = {
         text="Retire events (move the leaf out, probe sole ownership with Vec::from under catch_unwind) injected into arbitrary histories at points where the shadow says every derived result is gone, with gradients still stored or held; thorough tier additionally enumerates every drop order of the result handles at quiescence for sampled histories.",
         note="Trusted: the shadow's conservative 'may still be pinned' (dataflow ancestry of every live handle, aliases included).",
         tech=TECH + "lifetime-fault enumeration with sole-ownership probe"),
+    "C19": dict(cat="exploration", ref="DESIGN.md §6 C19",
+        text="Two halves. Native: the simulator built against corgi --features f32 runs the seeded histories of every claimed property with all monitors (reference-model, structural and relational; integer data exact up to 2^24, other data within K*eps32*Mag). Cross-build: integer-data histories generated once are executed by the f64 and the f32 binary and their complete logs (event statuses incl. refusals, shapes, values, gradients, ownership probes) must be identical. Restricted to the simulator's histories; the input spaces of the value kernels (C04-C07) under f32 are not decided by this family.",
+        note="Trusted: exactness guards (every partial sum times the finest granularity <= 2^24), the pipe protocol between the two binaries. Both binaries are rebuilt from /repo's working tree.",
+        tech=TECH + "same explicit traces executed on the f32 and f64 builds, logs compared; all monitors run natively on the f32 build"),
 }
 
 BUILDING = {
-    "C19": "check under construction in this session (f32 cross-build replay); not claimed until it runs",
 }
 
 NA = {
